@@ -302,6 +302,11 @@ def run_impl(case):
                         fails.append(("C11", f"cycle {t}: field {path_str(p)} got w_data={fw} w_stb={fs}; element w_data={wdata} w_stb={wstb}, range [{offs[k]},{offs[k] + w})", t))
                 else:
                     wsl.append("x")
+                    # … "strobes reach PRECISELY the fields whose access mode includes that direction"
+                    if ctx.get(f.port.w_stb) != 0:
+                        fails.append(("C11", f"cycle {t}: non-writable field {path_str(p)} (access {a}) sees w_stb=1; element w_stb={wstb if wr else 0}", t))
+                if not readable and ctx.get(f.port.r_stb) != 0:
+                    fails.append(("C11", f"cycle {t}: non-readable field {path_str(p)} (access {a}) sees r_stb=1; element r_stb={rstb if rd else 0}", t))
                 if readable:
                     if rs[-1] != str(rstb):
                         fails.append(("C11", f"cycle {t}: field {path_str(p)} r_stb={rs[-1]}, element r_stb={rstb}", t))
